@@ -63,7 +63,7 @@ REQUIRED_LABELS = {
               "L:QBatchNormalization", "L:QSeparableConv2D", "L:QConv1D",
               "L:QSimpleRNN", "L:QLSTM", "L:QGRU", "L:QScaleShift",
               "L:QSeparableConv1D", "folded_layer", "bn_inverse_quantizer",
-              "frozen_export", "canonical", "hyp", "pool_entry_no_quantizer",
+              "frozen_export", "canonical", "pool_entry_no_quantizer",
               "binary_use_01", "frozen_behaviour_checked"],
     "thorough": ["export", "export2", "predict", "freeze", "di_model", "dd_model",
                  "rel:po2", "rel:relu_po2", "rel:auto_po2",
